@@ -89,14 +89,16 @@ theorem anchor_id_shadowed_by_name :
     resolveLinks [⟨[⟨"y", 0, 0⟩], [⟨"internal", "x", 0⟩]⟩] = [([], [⟨"y", 0, 0⟩])] := by
   refine ⟨by decide +kernel, by decide, by decide⟩
 
-/-- A document with `<link rel=attachment href=…>` can be written once only: on the second
-`write_pdf()` — or on `document.copy(pages).write_pdf()` after a first write — the "Embedded files" block
-re-enters the spent `Attachment.source` context manager and `generate_pdf` dies with `AttributeError`
-(`'_GeneratorContextManager' object has no attribute 'args'`) instead of embedding the file again. -/
-theorem attachment_second_write_crash :
-    Wp.Attach.writeAllAgain (Wp.Attach.metaAttachments (fun _ => ⟨some 2, none, some "plain,hi", none⟩)
-      [⟨some "data:text/plain,hi", none⟩]) = .error (.noneAttribute "_GeneratorContextManager.args") ∧
-    Wp.Attach.writeAllAgain (Wp.Attach.metaAttachments (fun _ => ⟨some 2, none, none, none⟩) [⟨none, none⟩]) = .ok () := by
-  exact ⟨rfl, rfl⟩
+/-- Regression example for the repaired defect `attachment-second-write-crash` (commit a0bb005): a
+document with `<link rel=attachment href="data:text/plain,hi">` used to die with `AttributeError` in the
+"Embedded files" block of its second `generate_pdf` (the spent `Attachment.source`).  A second PDF —
+here written from object number 31 instead of 10 — now embeds the same file under the same name
+(for every document and every pair of object numbers: `C18.second_write_same_files`). -/
+example :
+    let atts := Wp.Attach.metaAttachments (fun _ => ⟨some 2, none, some "plain,hi", none⟩)
+      [⟨some "data:text/plain,hi", none⟩]
+    let cpsOf := fun (s : String) => s.toList.map Char.toNat
+    (Wp.Attach.embeddedFiles cpsOf [] 10 atts).2.1 = some ⟨12, [("plain,hi", 11)]⟩ ∧
+    (Wp.Attach.embeddedFiles cpsOf [] 31 atts).2.1 = some ⟨33, [("plain,hi", 32)]⟩ := by decide
 
 end Wp.Witness.C18
